@@ -450,12 +450,18 @@ def _get_ticket():
     client, server, saved, ssaved = _mk_pair({"mds_c": 1200, "mds_s": 1200})
     now = 10.0
     client.connect(SADDR, now=now)
-    for _ in range(8):
-        now += 0.01
-        for d, a in client.datagrams_to_send(now):
-            server.receive_datagram(d, CADDR, now)
-        for d, a in server.datagrams_to_send(now):
-            client.receive_datagram(d, SADDR, now)
+    try:
+        for _ in range(8):
+            now += 0.01
+            got = False
+            for d, a in client.datagrams_to_send(now):
+                server.receive_datagram(d, CADDR, now)
+                got = True
+            if got or server._network_paths:
+                for d, a in server.datagrams_to_send(now):
+                    client.receive_datagram(d, SADDR, now)
+    except Exception:   # a broken tree: the 0-RTT schedules are skipped (and counted as skipped)
+        pass
     _TICKETS["t"] = (saved[0], ssaved[0]) if saved and ssaved else None
     return _TICKETS["t"]
 
@@ -543,7 +549,7 @@ def sim_run(case, want_trace=False):
     rng = random.Random(case["seed"])
     ticket = _get_ticket() if case.get("zero_rtt") else None
     if case.get("zero_rtt") and ticket is None:
-        return {"violations": [], "stats": {"skipped": 1}, "trace": [], "ledger": []}
+        return {"violations": [], "stats": {"skipped": 1}, "trace": [], "ledger": {}}
     client, server, _, _ = _mk_pair(case, ticket)
     obs = Observer(client.original_destination_connection_id)
     C = Side("client", client, case["mds_c"], True)
@@ -841,7 +847,7 @@ def _sim_batch(cases):
     _install_recorder()
     agg = {"schedules": 0, "datagrams": 0, "initial_datagrams": 0, "unvalidated_sends": 0, "steps": 0, "short_initial": 0,
            "handshake_done": 0, "migrations": 0, "junk": 0, "spoofed": 0, "closes": 0, "impl_exceptions": {}, "max_ratio_pct": 0,
-           "profiles": {}, "mds": {}}
+           "skipped": 0, "profiles": {}, "mds": {}}
     out = []
     ledgers = []
     for c in cases:
